@@ -43,3 +43,8 @@ pub mod world {
 pub mod query {
     include!(concat!(env!("BROOD_VERIF_DIR"), "/harness/query.rs"));
 }
+
+#[cfg(kani)]
+pub mod c18 {
+    include!(concat!(env!("BROOD_VERIF_DIR"), "/harness/c18.rs"));
+}
